@@ -163,7 +163,7 @@ func suiteCrash(seed uint64, n int, work string, power bool, sparse bool) {
 	p.Abort, p.Oversize, p.ReadOnly, p.DoneCalls, p.Reopen, p.Txs = 10, 3, 5, 0, 0, 7
 	p.NoSPop = true
 	p.OpsMin, p.OpsMax = 1, 4
-	p.Vals = append(append([]string{}, p.Vals...), strings.Repeat("L", 120), strings.Repeat("M", 260))
+	p.Vals = append(append([]string{}, p.Vals...), strings.Repeat("\x01", 120), strings.Repeat("\x02", 260))
 	if sparse {
 		// HintBPTSparseIdxMode: key/value data in one bucket (what C02 covers), enough keys per segment
 		// for on-disk index trees with inner nodes, several sealed segments
@@ -297,6 +297,10 @@ func suiteCrash(seed uint64, n int, work string, power bool, sparse bool) {
 					}
 				}
 			}
+			watchKnown = ""
+			if f32 {
+				watchKnown = "F32" // a corrupted index file of the sparse mode can also make Open or a read loop for ever
+			}
 			specOrKnown := func(format string, a ...interface{}) {
 				if f32 {
 					emit("#KNOWN F32 "+format, a...)
@@ -423,7 +427,9 @@ func firstDiff(a, b, calls []string) string {
 // suiteMergeCrash (C16): a crash at every file-mutation point inside Merge
 // (torn writes included) must leave a directory that reopens to the pre-Merge contents.
 // power: SyncEnable forced on and every image is the one a power loss leaves (unsynced writes dropped).
-func suiteMergeCrash(seed uint64, n int, work string, power bool) {
+// pos: the workload uses position-dependent sorted-set removals (pops, rank ranges); differences of the
+// sorted sets they touch are known finding F31.
+func suiteMergeCrash(seed uint64, n int, work string, power bool, pos bool) {
 	os.MkdirAll(work, 0755)
 	live := NewSt(work + "/live")
 	rec := NewSt(work + "/rec")
@@ -437,6 +443,12 @@ func suiteMergeCrash(seed uint64, n int, work string, power bool) {
 	p.FixedScores = true
 	p.Abort, p.Oversize, p.ReadOnly, p.DoneCalls, p.Reopen, p.Txs = 10, 2, 5, 0, 0, 12
 	p.NoSPop = true
+	if pos {
+		p.FixedScores = false
+		p.SmallRanks = true
+		p.WKV, p.WList, p.WSet, p.WZSet = 2, 0, 1, 5
+		p.Buckets = []string{"z", "b1"}
+	}
 	images := 0
 	for i := 0; i < n; i++ {
 		r := root.Fork()
@@ -468,9 +480,13 @@ func suiteMergeCrash(seed uint64, n int, work string, power bool) {
 			cur = prev
 			return rs
 		}
+		posBuckets := map[string]bool{}
 		for _, c := range genHistory(r, p, seg) {
 			if c == "reopen" || live.dead {
 				continue
+			}
+			if f := strings.Fields(c); len(f) >= 2 && (f[0] == "zpopmin" || f[0] == "zpopmax" || f[0] == "zremrangebyrank") {
+				posBuckets[f[1]] = true
 			}
 			live.run(c)
 		}
@@ -501,6 +517,22 @@ func suiteMergeCrash(seed uint64, n int, work string, power bool) {
 					continue
 				}
 				o := obsOf(rec)
+				// F31: the sorted sets touched by position-dependent removals may differ after a crash inside Merge
+				nF31 := 0
+				if pos {
+					oc := obsCalls(p)
+					for k := range o {
+						f := strings.Fields(oc[k])
+						if k < len(before) && o[k] != before[k] && !(o[k] == "err" && isEmptyAnswer(before[k])) &&
+							len(f) >= 2 && strings.HasPrefix(f[0], "z") && posBuckets[f[1]] {
+							o[k] = before[k]
+							nF31++
+						}
+					}
+					if nF31 > 0 {
+						emit("#KNOWN F31 crash during Merge at event %d/%d: %d observations of sorted sets with position-dependent removal records differ after recovery", e-m0, m1-m0, nF31)
+					}
+				}
 				if nk, real := diffClass(o, before, obsCalls(p)); real != "" {
 					emit("#SPEC crash during Merge at event %d/%d (%s %s torn=%d power=%v): contents differ from before Merge: %s", e-m0, m1-m0, evOp(events, e), evPath(events, e), torn, power, real)
 				} else if nk > 0 {
